@@ -1,5 +1,6 @@
 """(T) for C11 - dimensional homogeneity: every closed-form expression read out of /repo's anchored files, together
-with a DECLARED length dimension, emitted as lean/PyrollModel/Gen/C11.lean.
+with a DECLARED length dimension, emitted as lean/PyrollModel/Gen/C11*.lean (Gamma, Hooks, Geom, Closed, Sites + the
+aggregating C11.lean).
 
 What is extracted (each becomes one `Item` = one Lean `Expr` + one kernel-evaluated `Expr.dim` certificate):
 
@@ -24,7 +25,7 @@ all have the one dimension declared for `width`), unless a longer suffix is list
 
 Items whose certificate does not come out as declared go to the table `inhomogeneous` (with their source location);
 everything else to `formulas` / `decisions`.  Nothing in this file decides what is ACCEPTABLE: that is the pinned list in
-driver/props/c11.py and the theorem `C11.inhomogeneous_items` of lean/PyrollProps/C11.lean.
+driver/props/c11.py and the theorem `C11.inhomogeneous_accepted` of lean/PyrollProps/C11.lean.
 """
 import ast
 import os
@@ -133,6 +134,8 @@ DIMS.update({
     # and angles alike); it is only compared with the literal 0, which is invariant for every dimension
     "value": 1,
     "MIN_ANGLE": 0, "MAX_ANGLE": 0,   # module constants of the solver file (their definitions are the `bracket` items)
+    "padded_contact_angle": 0,   # Roll.surface_x: an angle (local of the function)
+    "contact_angles": 0,
     "values": 1,                 # solve_r124: residual values on the angle raster (a length residual), sign tests only
     # EquivalentRibbedGroove
     "base_body_height": 1, "nominal_outer_diameter": 1, "rib_distance": 1, "rib_width": 1, "rib_angle": 0,
